@@ -109,16 +109,16 @@ func c20AcceptsIffMatch(fn *ssa.Function, field string) (bool, string) {
 }
 
 func c20PatternOf(c *Ctx, rule string, fn *ssa.Function) (*reLang, *reSource) {
-	gs := reGlobalsUsedBy(fn)
-	if len(gs) != 1 {
-		c.LostAnchor(rule, FnName(fn)+": the pattern variable it matches against")
-		return nil, nil
-	}
-	src, err := reGlobalSource(gs[0], 0)
+	srcs, err := rePatternsUsedBy(fn)
 	if err != nil {
 		c.Undecided(rule, FnName(fn)+"|pattern", fn.Pos(), "cannot obtain the pattern text: "+err.Error())
 		return nil, nil
 	}
+	if len(srcs) != 1 {
+		c.LostAnchor(rule, fmt.Sprintf("%s: the pattern it matches against (%d found)", FnName(fn), len(srcs)))
+		return nil, nil
+	}
+	src := srcs[0]
 	l, err := reParse(src.Src, src.Flags)
 	if err != nil {
 		c.Violation(rule, FnName(fn)+"|pattern", src.Pos, "the pattern does not compile: "+err.Error())
@@ -395,11 +395,20 @@ func c20Recv(r *sxCallRec) sxVal {
 	if r.Callee != nil && r.Callee.Signature.Recv() != nil && len(r.Args) > 0 {
 		return r.Args[0]
 	}
+	if strings.HasPrefix(r.Name, "(~/registry.Reference).") && len(r.Args) > 0 {
+		return r.Args[0] // method expression Reference.M(ref)
+	}
 	return nil
 }
 
 // c20Validated: a call of method `name` on a receiver equal to v returned nil.
 func c20Validated(p *sxPath, v sxVal, names ...string) bool {
+	for _, n := range names {
+		if n == "ValidateRegistry" || n == "ValidateRepository" {
+			names = append(names[:len(names):len(names)], "Validate") // Validate() checks both (C20.R3 all-parts)
+			break
+		}
+	}
 	for _, r := range p.Calls {
 		for _, n := range names {
 			if r.Name == "(~/registry.Reference)."+n && sxSame(c20Recv(r), v) && p.ErrNil(-1, r) {
@@ -851,7 +860,7 @@ func c20R4(c *Ctx) {
 			nCalls++
 			for i, a := range call.Common().Args {
 				if b, ok := g.Params[i].Type().Underlying().(*types.Basic); ok && b.Kind() == types.Bool {
-					if !isFieldLoad(a, "PlainHTTP") {
+					if !c20IsPlainHTTP(a, 0) {
 						okPlain, whyPlain = false, FnName(f)+" calls "+FnName(g)+" with a scheme flag that is not the PlainHTTP option"
 					}
 				}
@@ -879,6 +888,33 @@ func c20R4(c *Ctx) {
 	}
 	c.Check(R4, "callers|scheme-by-PlainHTTP", 0, okPlain, ifelse(okPlain, fmt.Sprintf("all %d builder calls pass the PlainHTTP option as the scheme flag", nCalls), whyPlain))
 	c.Check(R4, "callers|store-uses-own-endpoint", 0, okStore, ifelse(okStore, "methods of the blob store use only /blobs/ endpoints, methods of the manifest store only /manifests/ endpoints", whyStore))
+}
+
+// c20IsPlainHTTP: v is the PlainHTTP option, read directly or through an
+// in-module accessor all of whose returns are that field.
+func c20IsPlainHTTP(v ssa.Value, depth int) bool {
+	if isFieldLoad(v, "PlainHTTP") {
+		return true
+	}
+	if depth > 2 {
+		return false
+	}
+	for _, r := range Roots(v) {
+		call, ok := r.(*ssa.Call)
+		if !ok {
+			return false
+		}
+		g := StaticCallee(call)
+		if g == nil || !inModule(g) || len(g.Blocks) == 0 || g.Signature.Results().Len() != 1 {
+			return false
+		}
+		for _, ret := range Returns(g) {
+			if !c20IsPlainHTTP(ret.Results[0], depth+1) {
+				return false
+			}
+		}
+	}
+	return true
 }
 
 // c20StoreType: the concrete (pointer) type Repository.<method>() returns.
@@ -939,7 +975,16 @@ func c20ReferrersQuery(f *ssa.Function) (bool, string) {
 				return false, "the url.Values is passed to " + CalleeName(u)
 			}
 		case *ssa.MapUpdate:
-			return false, "the url.Values is written directly"
+			// url.Values{"artifactType": []string{<parameter>}} or v["artifactType"] = []string{<parameter>}
+			k, isConst := constString(u.Key)
+			elems, isLit := stLitElems(u.Value)
+			if !isConst || k != "artifactType" || !isLit || len(elems) != 1 {
+				return false, "the query carries something else than artifactType=<parameter>"
+			}
+			if _, isParam := elems[0].(*ssa.Parameter); !isParam {
+				return false, "the query carries something else than artifactType=<parameter>"
+			}
+			sets++
 		case *ssa.DebugRef:
 		default:
 			return false, fmt.Sprintf("the url.Values is used by %T", r)
